@@ -22,6 +22,7 @@ RULES = {
     'R2': 'query and update variants share the implementation',
     'R3': 'same address parser and error table',
     'R4': 'same delta accessors with the right signs',
+    'R6': 'READERS(REACH(get_utxos, get_balance)) ∩ state fields ⊆ fields carried across upgrades (coverage table of C09)',
     'R5': 'the paged listing enumerates each UTXO once: inclusive scan bounds and key order (= C01.R6), resume offset and next_page (= C06.R5/R6)',
 }
 ASSUMPTIONS = []
@@ -136,6 +137,25 @@ def run(ctx):
         ctx.check(good and net_ok and t == want, 'R3', 'address-front-door:' + nm, ps[0] if ps else f,
                   '%s parses with Address::from_str_checked(_, canister network) and maps MalformedAddress / WrongNetwork{expected} one to one' % nm,
                   '%s address handling: parser=%s table=%s' % (nm, good and net_ok, t))
+    # both hand the request's address text to the parser as it arrived (no trimming / case folding in one
+    # endpoint only): the argument is `request.address`, possibly passed down through parameters
+    def verbatim(fn_, e_, depth=0):
+        if isinstance(e_, tuple) and e_[0] == 'field' and e_[2] == 'address' and e_[1][0] in ('param', 'upvar'):
+            return True
+        if isinstance(e_, tuple) and e_[0] == 'param' and depth < 4:
+            cs_ = [c for c in prog.callers(fn_.short) if not c.cleanup]
+            return bool(cs_) and all(verbatim(c.fn, ex(prog, c.fn).operand(c.args[e_[1] - 1]), depth + 1) for c in cs_)
+        return False
+    for nm, f in (('get_utxos', fu), ('get_balance', fb)):
+        if not f:
+            continue
+        for k in [f] + prog.descendants(f):
+            for c in k.calls_to('ic_btc_canister::types::Address::from_str_checked'):
+                if c.cleanup:
+                    continue
+                a = ex(prog, k).operand(c.args[0])
+                ctx.check(verbatim(k, a), 'R3', 'address-verbatim:' + nm, c, '%s parses the request\'s address text unmodified' % nm,
+                          '%s transforms the address text before parsing it (%s): the two endpoints no longer accept / reject the same strings' % (nm, show(a)[:100]))
     # both refuse c > chain length with the same error and payload (shared with C04.R1)
     from sa.engine import SubCtx
     from rules import c04
@@ -185,6 +205,12 @@ def run(ctx):
     # offset, key order = Utxo order (shared with C01.R6), offset applied to both sources, next_page =
     # first UTXO not returned (shared with C06.R5/R6)
     c01.r6(SubCtx(ctx, {'R6': 'R5'}))
+    # R6: "every moment" includes right after an upgrade, also one that interrupts a sliced ingestion:
+    # everything the two readers read (the in-progress delta above all) is carried across upgrades
+    from rules import c09
+    if fu and fb:
+        gp = prog.fn(GU + 'get_utxos_private', required=False)
+        c09.inputs_survive_upgrades(ctx, 'R6', [x for x in (gp, fu, fb) if x is not None], 'get_utxos / get_balance', floor=10)
     from rules import c06
     c06.run(SubCtx(ctx, {'R5': 'R5', 'R6': 'R5'}))
     ap = ctx.fn('R4', 'ic_btc_canister::address_utxoset::AddressUtxoSet::apply_block')
